@@ -182,6 +182,29 @@ Proof.
   intros E; inversion E; reflexivity.
 Qed.
 
+(* ... and for EVERY float32 that is not a NaN, subnormals included *)
+Theorem double_shortest_f32 b f bs :
+  in_f64 b -> f32_number f -> f64_eq (widen f) b = true ->
+  (forall n, -32768 <= n <= 32767 -> f64_eq (of_int64 n) b = false) ->
+  gencodeDouble b = Ok bs -> length bs = 5%nat.
+Proof.
+  intros Hb Hf He Hno.
+  destruct (narrow_widen_number f Hf) as (NW & Wr & Wn).
+  assert (G : f64_eq (widen (narrow b)) b = true).
+  { destruct (f64_eq_cases _ _ He) as (_ & Nb & [E|[Z1 Z2]]).
+    - subst b. rewrite NW. exact He.
+    - destruct (zero64_cases b Hb Z2) as [->| ->]; vm_compute; reflexivity. }
+  rewrite gencodeDouble_unfold. cbv zeta. unfold enc_tail. rewrite G.
+  destruct (f64_eq (of_int64 (trunc64 b)) b) eqn:G1; [|intros E; inversion E; reflexivity].
+  set (iv := trunc64 b) in *.
+  assert (Hiv : ~ (-32768 <= iv <= 32767)) by (intros R; rewrite (Hno iv R) in G1; discriminate).
+  replace (iv =? 0) with false by lia. replace (iv =? 1) with false by lia.
+  replace ((-128 <=? iv) && (iv <=? 127)) with false by lia.
+  replace ((-32768 <=? iv) && (iv <=? 32767)) with false by lia.
+  intros E; inversion E; reflexivity.
+Qed.
+
+
 Example double_nonvacuous :
   in_f64 4611686018427387904 /\ f64_eq (of_int64 2) 4611686018427387904 = true   (* 2.0 *)
   /\ gencodeDouble 4611686018427387904 = Ok [93; 2]
